@@ -141,6 +141,32 @@ func gen(g *vh.Gen) {
 			g.Emit("lines", g.Pick("mem", "file"), strings.Join(h, ","))
 		}
 	}
+	// incompressible content (uniform random bytes) of 2 KiB .. 70 KiB in lines of random length: whatever a store does
+	// to content on its way to the disk (compression, de-duplication, hashing) has a path for content it cannot shrink
+	for k := 0; k < g.N(6, 120); k++ {
+		total := g.Pick2(2048, 4095, 4096, 5000, 20000, 65536, 70000)
+		ls := []string{"Subject: noise " + strconv.Itoa(total), ""}
+		for cur := 0; cur < total; {
+			n := 1 + g.Intn(g.Pick2(60, 300, 998, 5000))
+			if n > total-cur {
+				n = total - cur
+			}
+			b := make([]byte, n)
+			for j := range b {
+				b[j] = byte(g.Intn(256))
+				if b[j] == '\n' {
+					b[j] = 0xfe
+				}
+			}
+			ls = append(ls, string(b))
+			cur += n + 1
+		}
+		h := make([]string, len(ls))
+		for j, l := range ls {
+			h[j] = vh.HS(l)
+		}
+		g.Emit("lines", g.Pick("mem", "file", "file"), strings.Join(h, ","))
+	}
 	// total sizes just below and at powers of two: the message as DATA carried it is shorter than the stored source by
 	// the trace headers (about 150 bytes), so a size hint taken from one and a buffer filled with the other disagree
 	// only in this band
